@@ -76,34 +76,36 @@ func round(s *slip.Scope, f slip.Object, args slip.List, depth int) slip.Values 
 	switch tn := num.(type) {
 	case slip.Fixnum:
 		d := div.(slip.Fixnum)
-		q = tn / d
-		r = tn - q.(slip.Fixnum)*d
-		if r == slip.Fixnum(0) {
+		if d == -1 {
+			// The negation of the most negative fixnum is a bignum.
+			q, r = subFixnums(0, tn), slip.Fixnum(0)
 			break
 		}
-		ns := tn < slip.Fixnum(0)
-		if ns {
-			tn = -tn
-		}
-		ds := d < slip.Fixnum(0)
-		if ds {
-			d = -d
-		}
-		q = tn / d
-		r = tn - q.(slip.Fixnum)*d
-		dif := r.(slip.Fixnum) * 2
-		if d < dif || (dif == d && q.(slip.Fixnum)%2 != 0) {
-			q = q.(slip.Fixnum) + 1
-			r = tn - q.(slip.Fixnum)*d
-		}
-		if ns {
-			r = -r.(slip.Fixnum)
-			if !ds {
-				q = -q.(slip.Fixnum)
+		fq := tn / d
+		fr := tn - fq*d
+		if fr != 0 {
+			// Compare the remainder with half the divisor as unsigned
+			// magnitudes, neither 2*fr nor -tn can overflow that way.
+			ur := uint64(fr)
+			if fr < 0 {
+				ur = -ur
 			}
-		} else if ds {
-			q = -q.(slip.Fixnum)
+			ud := uint64(d)
+			if d < 0 {
+				ud = -ud
+			}
+			if ud-ur < ur || (ud-ur == ur && fq%2 != 0) {
+				// Move the quotient away from zero.
+				if (tn < 0) == (d < 0) {
+					fq++
+					fr -= d
+				} else {
+					fq--
+					fr += d
+				}
+			}
 		}
+		q, r = fq, fr
 	case slip.SingleFloat:
 		q = tn / div.(slip.SingleFloat)
 		q = slip.Fixnum(math.RoundToEven(float64(q.(slip.SingleFloat))))
